@@ -733,6 +733,21 @@ def desugar_for_loops(text, spec, where, log):
         pat = text[kw_off + 3:in_kw].strip()
         expr = text[in_kw + 2:body].strip()
         close = rsitems.match_bracket(text, code, body)
+        if mode == 'rev_ref':
+            # `for x in EXPR.iter().rev()`: an indexed loop from the last element down to the first
+            m_ = re.search(r'\s*\.iter\(\)\s*\.rev\(\)$', expr)
+            if not m_:
+                raise ExtractError('%s: desugar_for: loop #%d is not over `.iter().rev()`' % (where, ordinal))
+            expr = expr[:m_.start()]
+            head = '{ let it_%s = &%s; let mut %s: usize = it_%s.len(); while %s > 0 ' % (name, expr, name, name, name)
+            nl = text[kw_off:body].count('\n')
+            text = (text[:kw_off] + head + '\n' * nl + '{' + ' %s = %s - 1; let %s = &it_%s[%s]; ' % (name, name, pat, name, name)
+                    + text[body + 1:close + 1] + ' }' + text[close + 1:])
+            log.append(dict(rule='R9', where=where, matches=1,
+                            why='for loop #%d over `%s.iter().rev()` desugared to an indexed while loop running from the last element to the first (position `%s`)' % (ordinal, expr, name)))
+            code = rsitems.lex_mask(text)
+            loops = rsitems.loops_in(text, 0, len(text), code)
+            continue
         if mode == 'enum_ref':
             # `for (i, x) in EXPR.iter().enumerate()`: the position is the loop counter itself
             m_ = re.search(r'\s*\.iter\(\)\s*\.enumerate\(\)$', expr)
